@@ -123,11 +123,13 @@ func checkC09(w *World, r *Report) {
 	r.Rule("R09.1", "request Encode/Decode layout agreement", 19)
 	r.Rule("R09.2", "request header constants agree", 2)
 	r.Rule("R09.3", "label / name limits", 4)
+	r.Rule("R09.5", "the name unescaper consumes every escape form whenever its bytes are there (no consuming step guarded more strictly than its width)", 1)
 	r.Rule("R09.4", "command table and cache-busting alphabet", 2)
 
 	pairLayouts(w, r, "R09.1", "Request")
 	c09Header(w, r)
 	c09Limits(w, r)
+	c09UnescapeTight(w, r)
 	c09Table(w, r)
 }
 
@@ -451,6 +453,7 @@ func checkC10(w *World, r *Report) {
 	r.Rule("R10.6", "private record type registered = emitted", 1)
 	r.Rule("R10.8", "reassembly strips the domain by length, never by character set", 1)
 	r.Rule("R10.7", "tag + chunk fits the record type's rdata limit", 3)
+	r.Rule("R10.11", "a response whose construction failed is never sent (it can hold a valid-looking prefix of the answer records)", 1)
 	r.Rule("R10.10", "wrapping helpers never append to or write into the slices they are given", 1)
 	r.Rule("R10.9", "order counters: capacity guards can fire, narrowing conversions proven in range", 8)
 
@@ -458,6 +461,7 @@ func checkC10(w *World, r *Report) {
 	c10Records(w, r)
 	c10Private(w, r)
 	c10NoWriteIntoCallerSlices(w, r)
+	c10NoPartialAnswerOnError(w, r)
 }
 
 type wrapInfo struct {
@@ -1050,3 +1054,113 @@ func uniqStrings(in []string) []string {
 	return out
 }
 
+
+// c10NoPartialAnswerOnError: R10.11 — EncodeDnsResponse returns the half-built message together with its
+// error (e.g. 255 well-formed A records when record 256 does not fit). Whoever writes to the wire must not
+// send that message: the client does not look at the rcode, decodes the prefix as a complete payload and
+// acknowledges it, so the rest of the stream is lost for good.
+func c10NoPartialAnswerOnError(w *World, r *Report) {
+	key := "handler:dns.HandleFunc|no-partial-answer"
+	n := 0
+	bad := ""
+	for _, fn := range dnsPkgFuncs(w) {
+		for _, c := range callsIn(fn) {
+			f := sCallee(c)
+			if f == nil || f.Name() != "WriteMsg" || len(c.Common().Args) == 0 {
+				continue
+			}
+			n++
+			arg := c.Common().Args[len(c.Common().Args)-1]
+			stop, _ := c.(ssa.Instruction)
+			okp := enumPaths(fn, nil, nil, func(in ssa.Instruction) bool { return in == stop }, func(e pathExit) {
+				if e.Stop == nil || bad != "" {
+					return
+				}
+				// where does the message come from on this path?
+				for _, root := range provenance(e.State.Resolve(arg), provOpts{}) {
+					root = e.State.Resolve(root)
+					ex, ok := root.(*ssa.Extract)
+					if !ok || ex.Index != 0 {
+						continue
+					}
+					call, ok := ex.Tuple.(*ssa.Call)
+					if !ok {
+						continue
+					}
+					tup, ok := call.Type().(*types.Tuple)
+					if !ok || tup.Len() < 2 {
+						continue
+					}
+					// the producing call's error must be known nil on this path
+					var errv ssa.Value
+					for _, ref := range *call.Referrers() {
+						if ex2, ok := ref.(*ssa.Extract); ok && ex2.Index == tup.Len()-1 {
+							errv = ex2
+						}
+					}
+					if errv == nil {
+						bad = fmt.Sprintf("%s: the message sent comes from a call whose error result is dropped", w.Pos(c.Pos()))
+						continue
+					}
+					if isNil, known := e.State.NilKnown(errv); !known || !isNil {
+						bad = fmt.Sprintf("%s: the message that is written to the wire can be the one returned together with an error: a response that could not be built completely (too many records) still holds its well-formed first records, which the client decodes as a complete payload and acknowledges — the remainder is never delivered and nothing reports it", w.Pos(c.Pos()))
+					}
+				}
+			})
+			if !okp {
+				bad = "path budget exceeded"
+			}
+		}
+	}
+	if n == 0 {
+		r.Undecided("R10.11", key, "-", "no WriteMsg call found in the DNS tunnel packages")
+		return
+	}
+	r.Check(bad == "", "R10.11", key, "-", fmt.Sprintf("%d WriteMsg call(s); a message that came with an error is never written", n), bad)
+}
+
+// c09UnescapeTight: R09.5 — StripDomain undoes what miekg/dns does to a question name on the wire: dots
+// between labels, "\\DDD" for bytes outside the printable range, "\\c" for the characters it escapes. Each
+// branch of its loop consumes a fixed number k of bytes (data = data[k:]). If the comparisons that dominate
+// such a step entail len(data) >= k+1, the k-byte form is refused exactly when it is the LAST thing in the
+// input, and the remainder is dropped or left to a branch that discards it: the server decodes a request that
+// is one character short. Decided with the linear-entailment engine (A10).
+func c09UnescapeTight(w *World, r *Report) {
+	fn := w.SSAFunc(w.Func("internal/streams/dns/commands", "StripDomain"))
+	key := "func:commands.StripDomain|consuming-steps"
+	if fn == nil {
+		r.Undecided("R09.5", key, "-", "anchor unresolved: commands.StripDomain")
+		return
+	}
+	n := 0
+	var bad []string
+	for _, g := range staticCone(fn, 1) {
+		allInstrs(g, func(in ssa.Instruction) {
+			sl, ok := in.(*ssa.Slice)
+			if !ok || sl.High != nil || sl.Low == nil {
+				return
+			}
+			k, isC := constIntVal(sl.Low)
+			if !isC || k < 1 {
+				return
+			}
+			// only steps that advance the loop-carried input (the slice feeds a phi of the same buffer)
+			feedsPhi := false
+			for _, ref := range *sl.Referrers() {
+				if _, ok := ref.(*ssa.Phi); ok {
+					feedsPhi = true
+				}
+			}
+			if !feedsPhi {
+				return
+			}
+			n++
+			sys := factsAt(in)
+			if sys.entails(linConst(k+1), lenOf(sl.X, 0)) {
+				bad = append(bad, fmt.Sprintf("%s: the step that consumes %d byte(s) runs only where at least %d remain: the same form at the very end of the name (after the domain was cut off nothing follows it) is not consumed — a payload whose last character is one that DNS escapes arrives one character short", w.Pos(sl.Pos()), k, k+1))
+			}
+		})
+	}
+	sort.Strings(bad)
+	r.Check(len(bad) == 0 && n > 0, "R09.5", key, w.Pos(fn.Pos()), fmt.Sprintf("%d consuming step(s), none guarded more strictly than its own width", n), strings.Join(bad, "; ")+mapStr(n == 0, "no consuming step found in the unescaper (idiom not recognised)"))
+}
